@@ -355,10 +355,11 @@ def _h_yield_guards(ctx, R, rid, closures=False):
     nc = 0
     for m in H_MODULES:
         mod = P.module(UTIL + m + ".py")
-        name, pub, mid, raw = _triple(mod)
+        name, pub, mid, raw0 = _triple(mod)
+        raw = inlined_view(P, raw0)
         if closures:
             for g in _closure_generators(mod):
-                if g is raw:
+                if g is raw0:
                     continue
                 for y in walk_local(g.node):
                     if not isinstance(y, ast.Yield):
@@ -393,7 +394,7 @@ def _h_yield_guards(ctx, R, rid, closures=False):
     from .query_rules import check_stages
     st = 0
     for m in H_MODULES:
-        st += check_stages(R, rid, _triple(P.module(UTIL + m + ".py"))[3])
+        st += check_stages(R, rid, inlined_view(P, _triple(P.module(UTIL + m + ".py"))[3]))
     R.count("two-stage hierarchical generators", st)
     R.floor("two-stage hierarchical generators", 5)
     if closures:
@@ -917,17 +918,38 @@ def check_c12(ctx, R):
                               "%s compares `%s`: items are shared by every occurrence of a definition, so different hierarchical pins/wires look equal and are dropped from the trace" % (f.qualname, short(c, 60)))
             # the work-list exclusion of the pin we came from
             if f.name == "_get_hwires_from_hpins":
-                filt = [g for g in walk_local(f.node) if isinstance(g, ast.GeneratorExp) and g.generators and g.generators[0].ifs]
-                for g in filt:
+                # (the loader reads `WL += (x for x in IT if c)` as `for x in IT: if c: WL.append(x)`)
+                popped = {norm(a.targets[0]): norm(a.value.func.value) for a in walk_local(f.node) if isinstance(a, ast.Assign) and isinstance(a.value, ast.Call)
+                          and isinstance(a.value.func, ast.Attribute) and a.value.func.attr == "pop"}
+                worklists = set(popped.values())
+                for c in walk_local(f.node):
+                    if not (isinstance(c, ast.Call) and isinstance(c.func, ast.Attribute) and c.func.attr == "append" and norm(c.func.value) in worklists
+                            and len(c.args) == 1 and isinstance(c.args[0], ast.Name)):
+                        continue
+                    var = c.args[0].id
+                    chain = []
+                    loop = None
+                    for p_ in parent_chain(c):
+                        if isinstance(p_, ast.For) and norm(p_.target) == var:
+                            loop = p_
+                            break
+                        if isinstance(p_, ast.If):
+                            chain.append(p_.test)
+                        if isinstance(p_, (ast.FunctionDef, ast.While)):
+                            break
+                    if loop is None:
+                        continue
                     n9 += 1
-                    t = g.generators[0].ifs[0]
-                    popped = {norm(a.targets[0]) for a in walk_local(f.node) if isinstance(a, ast.Assign) and isinstance(a.value, ast.Call)
-                              and isinstance(a.value.func, ast.Attribute) and a.value.func.attr == "pop"}
-                    if isinstance(t, ast.Compare) and isinstance(t.ops[0], ast.NotEq) and norm(g.generators[0].target) in (norm(t.left), norm(t.comparators[0])) \
-                            and ({norm(t.left), norm(t.comparators[0])} - {norm(g.generators[0].target)}) <= popped:
-                        R.ok("H9", "%s excludes only the reference it came from" % f.qualname, f.loc(g))
+                    ok = len(chain) == 1
+                    if ok:
+                        t = chain[0]
+                        ok = isinstance(t, ast.Compare) and len(t.ops) == 1 and isinstance(t.ops[0], ast.NotEq) and var in (norm(t.left), norm(t.comparators[0])) \
+                            and ({norm(t.left), norm(t.comparators[0])} - {var}) <= set(popped)
+                    if ok:
+                        R.ok("H9", "%s excludes only the reference it came from" % f.qualname, f.loc(c))
                     else:
-                        R.bad("H9", "%s|exclusion" % f.key, f.loc(g),
-                              "%s: the work-list extension filters with `%s`; it must exclude exactly the hierarchical pin it came from (x != hpin)" % (f.qualname, short(t, 50)))
+                        R.bad("H9", "%s|exclusion" % f.key, f.loc(c),
+                              "%s: the work-list extension filters with `%s`; it must exclude exactly the hierarchical pin it came from (x != hpin)"
+                              % (f.qualname, " and ".join(short(t, 50) for t in chain) or "nothing"))
     R.count("closure exclusion filters (H9)", n9)
     R.floor("closure exclusion filters (H9)", 2)
